@@ -37,4 +37,10 @@ MUTANTS = [
     m("c11-block-quadform-whole-vector", "R3", "                block.grad_quadratic_form_inv(vector_part)\n", "                block.grad_quadratic_form_inv(vector)\n"),
     m("c11-block-quadform-reversed-parts", "R3", "                    self._split(vector, axis=0),\n                    strict=True,", "                    reversed(self._split(vector, axis=0)),\n                    strict=True,"),
     m("c11-twin-block-logdet-listcomp", None, "            return tuple(block.grad_log_abs_det for block in self._blocks)", "            return tuple([b.grad_log_abs_det for b in self._blocks])", twin=True),
+    m("c11-product-logdet-factor", "R4", "        return 2 * (self.inv @ (self._rect_matrix.array @ self._pos_def_matrix))", "        return self.inv @ (self._rect_matrix.array @ self._pos_def_matrix)"),
+    m("c11-product-quadform-side", "R4", "            self._pos_def_matrix @ (self._rect_matrix.T @ inv_matrix_vector),\n        )", "            self._pos_def_matrix @ (self._rect_matrix.T @ vector),\n        )"),
+    m("c11-dense-quadform-not-negated", "R4", "        return -np.outer(inv_matrix_vector, inv_matrix_vector)", "        return np.outer(inv_matrix_vector, inv_matrix_vector)"),
+    m("c11-trifactored-outer-swapped", "R4", "            -2 * np.outer(inv_vector, inv_factor_vector),", "            -2 * np.outer(inv_factor_vector, inv_vector),"),
+    m("c11-dense-quadform-cho-solve-convention", "R4", "        inv_matrix_vector = self.inv @ vector\n        return -np.outer(inv_matrix_vector, inv_matrix_vector)", "        inv_matrix_vector = sla.cho_solve((self.factor.array, self.factor.lower), vector)\n        return -np.outer(inv_matrix_vector, inv_matrix_vector)"),
+    m("c11-twin-dense-quadform-cho-solve-lower", None, "        inv_matrix_vector = self.inv @ vector\n        return -np.outer(inv_matrix_vector, inv_matrix_vector)", "        inv_matrix_vector = self._sign * sla.cho_solve((self.factor.array, True), vector)\n        return -np.outer(inv_matrix_vector, inv_matrix_vector)", twin=True),
 ]
